@@ -22,6 +22,8 @@ THEOREMS = [
     ("EG.props.C01", "C01_mapper_history_503"),
     ("EG.props.C01", "C01_mapper_history_dispatch"),
     ("EG.props.C01", "C01_rawpath_irrelevant"),
+    ("EG.props.C01", "C01_xff_option_irrelevant_for_routing"),
+    ("EG.props.C01", "C01_forwarded_for"),
 ]
 HARNESSES = [
     dict(name="route", pkg="pkg/object/httpserver", files=["harness/httpserver/zz_verif_c01_test.go"],
@@ -103,7 +105,8 @@ def enc_server(i, sv=None, sidx=0):
         rules.append(Rec(ru_host=S(r.get("host") or ""), ru_host_re=S(r.get("hostRegexp") or ""),
                          ru_filter=_fid(r.get("filter") is not None, base + 1000 * (ri + 1)), ru_paths=L(paths)))
     return Rec(sv_filter=_fid(sv.get("filter") is not None, base), sv_rules=L(rules),
-               sv_backends=L([S(b) for b in sv.get("backends") or []]), sv_body=Z(sv.get("bodyLimit") or 0))
+               sv_backends=L([S(b) for b in sv.get("backends") or []]), sv_body=Z(sv.get("bodyLimit") or 0),
+               sv_xff=B(sv.get("xForwardedFor")))
 
 
 def enc_tabs(i):
@@ -127,15 +130,21 @@ def enc_hostnames(i):
 
 
 def enc_obs(o):
-    return T(Z(o["status"]), S(o["backend"]), S(o["path"]), B(o["panic"]), Z(o.get("gen") or 0))
+    return T(Z(o["status"]), S(o["backend"]), S(o["path"]), B(o["panic"]), Z(o.get("gen") or 0), S(o.get("xff") or ""))
+
+
+def enc_mapper(m):
+    return L([T(S(b["name"]), N(b["gen"])) for b in (m or [])])
+
+
+def mappers(i, n):
+    default = [dict(name=b, gen=1) for b in i["server"].get("backends") or []]
+    ms = list(i.get("mappers") or [])
+    return (ms + [default] * n)[:n]
 
 
 def enc_mappers(i):
-    default = [dict(name=b, gen=1) for b in i["server"].get("backends") or []]
-    ms = list(i.get("mappers") or [])
-    n = len(i.get("reqs") or [])
-    ms = (ms + [default] * n)[:n]
-    return L([L([T(S(b["name"]), N(b["gen"])) for b in (m or [])]) for m in ms])
+    return L([enc_mapper(m) for m in mappers(i, len(i.get("reqs") or []))])
 
 
 def encode(c):
